@@ -83,6 +83,66 @@ pub enum CoalesceFuture<Req, Res, E, K> {
     Waiting { receiver: Receiver<Res, E> },
 }
 
+// ---- C11: global registry lemma over the contracts of try_join / complete / cancel ----
+/// ghost view of the whole coalescer: `keys` = domain of the in-flight map, `leaders` = live leaders whose registration is still
+/// armed (a Registration guard or a Leading future with key Some), each with the key it owns
+pub struct Registry<K> { pub keys: Set<K>, pub leaders: Map<int, K> }
+/// C11: a key is registered iff exactly one live leader holds it
+pub open spec fn reg_inv<K>(g: Registry<K>) -> bool {
+    &&& forall|l: int| g.leaders.contains_key(l) ==> g.keys.contains(#[trigger] g.leaders[l])
+    &&& forall|l1: int, l2: int| g.leaders.contains_key(l1) && g.leaders.contains_key(l2) && #[trigger] g.leaders[l1] == #[trigger] g.leaders[l2] ==> l1 == l2
+    &&& forall|k: K| #[trigger] g.keys.contains(k) ==> exists|l: int| g.leaders.contains_key(l) && #[trigger] g.leaders[l] == k
+}
+/// what try_join does to the key set, as its contract states it: a registered key is joined and nothing changes; otherwise
+/// exactly that key is added and the caller becomes its leader
+pub open spec fn join_post<K>(k0: Set<K>, k1: Set<K>, key: K, leader: bool) -> bool {
+    if k0.contains(key) { !leader && k1 == k0 } else { leader && k1 == k0.insert(key) }
+}
+pub open spec fn join_step<K>(g: Registry<K>, k1: Set<K>, key: K, leader: bool, l: int) -> Registry<K> {
+    Registry { keys: k1, leaders: if leader { g.leaders.insert(l, key) } else { g.leaders } }
+}
+/// complete / cancel / Drop by leader `l`: exactly its own key is freed and its registration is disarmed
+pub open spec fn release_step<K>(g: Registry<K>, k1: Set<K>, l: int) -> Registry<K> {
+    Registry { keys: k1, leaders: g.leaders.remove(l) }
+}
+pub proof fn lemma_reg_init<K>()
+    ensures reg_inv(Registry::<K> { keys: Set::empty(), leaders: Map::empty() }),   // #an_empty_registry_has_no_key_and_no_leader [C11]
+{}
+pub proof fn lemma_reg_join<K>(g: Registry<K>, k1: Set<K>, key: K, leader: bool, l: int)
+    requires reg_inv(g), join_post(g.keys, k1, key, leader), !g.leaders.contains_key(l),
+    ensures reg_inv(join_step(g, k1, key, leader, l)),   // #a_join_keeps_one_live_leader_per_registered_key [C11]
+        leader ==> !g.keys.contains(key),   // #a_request_leads_only_when_no_call_of_its_key_is_in_flight [C11]
+        !leader ==> exists|l0: int| g.leaders.contains_key(l0) && #[trigger] g.leaders[l0] == key,   // #a_waiter_always_has_a_live_leader_of_its_key [C11]
+{
+    let g1 = join_step(g, k1, key, leader, l);
+    if leader {
+        assert forall|k: K| #[trigger] g1.keys.contains(k) implies exists|l2: int| g1.leaders.contains_key(l2) && #[trigger] g1.leaders[l2] == k by {
+            if k == key { assert(g1.leaders.contains_key(l) && g1.leaders[l] == k); }
+            else { assert(g.keys.contains(k)); let l0 = choose|l0: int| g.leaders.contains_key(l0) && #[trigger] g.leaders[l0] == k; assert(g1.leaders.contains_key(l0) && g1.leaders[l0] == k); }
+        }
+    } else {
+        assert(g.keys.contains(key));
+    }
+}
+pub proof fn lemma_reg_release<K>(g: Registry<K>, k1: Set<K>, l: int)
+    requires reg_inv(g), g.leaders.contains_key(l), k1 == g.keys.remove(g.leaders[l]),
+    ensures reg_inv(release_step(g, k1, l)),   // #a_release_keeps_one_live_leader_per_registered_key [C11]
+{
+    let g1 = release_step(g, k1, l);
+    let key = g.leaders[l];
+    assert forall|k: K| #[trigger] g1.keys.contains(k) implies exists|l2: int| g1.leaders.contains_key(l2) && #[trigger] g1.leaders[l2] == k by {
+        assert(g.keys.contains(k) && k != key);
+        let l0 = choose|l0: int| g.leaders.contains_key(l0) && #[trigger] g.leaders[l0] == k;
+        assert(l0 != l);
+        assert(g1.leaders.contains_key(l0) && g1.leaders[l0] == k);
+    }
+    assert forall|l1: int| g1.leaders.contains_key(l1) implies g1.keys.contains(#[trigger] g1.leaders[l1]) by {
+        assert(g.leaders.contains_key(l1) && l1 != l);
+        assert(g.keys.contains(g.leaders[l1]));
+        if g.leaders[l1] == key { assert(g.leaders[l1] == g.leaders[l]); }
+    }
+}
+
 impl<K: Hash + Eq + VClone, Res: VClone, E: VClone> InFlight<K, Res, E> {
     pub fn try_join<Req>(&mut self, key: K, Tracked(tr): Tracked<&mut Trace<Req, Res, E>>) -> (r: Option<Receiver<Res, E>>)
         requires obeys_key_model::<K>(),
@@ -92,12 +152,14 @@ impl<K: Hash + Eq + VClone, Res: VClone, E: VClone> InFlight<K, Res, E> {
                 && (forall|k: K| old(self).requests@.contains_key(k) ==> final(self).requests@[k] == old(self).requests@[k]),   // #first_request_of_a_key_registers_it_and_touches_no_other_key [C11]
             r is None ==> *final(tr) == (Trace { unguarded: old(tr).unguarded + 1, ..*old(tr) }),   // #registration_is_a_duty_of_the_leader [C11]
             r is Some ==> *final(tr) == *old(tr),
+            join_post(old(self).requests@.dom(), final(self).requests@.dom(), key, r is None),   // #each_join_is_a_step_of_the_registry_history [C11]
     //@body InFlight::try_join
 
     pub fn complete<Req>(&mut self, key: &K, result: Result<Res, E>, Tracked(tr): Tracked<&mut Trace<Req, Res, E>>)
         requires obeys_key_model::<K>(),
         ensures
             final(self).requests@ == old(self).requests@.remove(*key),   // #completion_frees_exactly_that_key [C11]
+            final(self).requests@.dom() == old(self).requests@.dom().remove(*key),   // #each_release_is_a_step_of_the_registry_history [C11]
             old(self).requests@.contains_key(*key) ==> final(tr).sent == old(tr).sent.push((old(self).requests@[*key].id@, result)),   // #result_delivered_on_the_channel_of_its_own_key [C11]
             !old(self).requests@.contains_key(*key) ==> final(tr).sent == old(tr).sent,   // #nothing_sent_for_an_unregistered_key [C11]
             final(tr).removed == old(tr).removed + 1 && final(tr).calls == old(tr).calls && final(tr).last_done == old(tr).last_done && final(tr).done == old(tr).done
@@ -108,6 +170,7 @@ impl<K: Hash + Eq + VClone, Res: VClone, E: VClone> InFlight<K, Res, E> {
         requires obeys_key_model::<K>(),
         ensures
             final(self).requests@ == old(self).requests@.remove(*key),   // #cancel_frees_exactly_that_key [C11]
+            final(self).requests@.dom() == old(self).requests@.dom().remove(*key),   // #each_release_is_a_step_of_the_registry_history [C11]
             final(tr).sent == old(tr).sent,   // #cancel_sends_nothing_so_waiters_see_the_channel_closed [C11]
             final(tr).removed == old(tr).removed + 1 && final(tr).calls == old(tr).calls && final(tr).last_done == old(tr).last_done && final(tr).done == old(tr).done
                 && final(tr).unguarded == (if old(tr).unguarded > 0 { old(tr).unguarded - 1 } else { 0 }),   // #frame_and_duty_discharged
